@@ -131,6 +131,30 @@ def c14_cases(workdir, quick=True):
                             "status": row["status"], "result": row["result"], "run": 1, "seq": 100 + k, "t": 0})
             finally:
                 s2.close()
+    # a stale deferred-release timer from an EARLIER idle period fires while a waiter timeout is pending and the current
+    # idle period is still younger than idle_timeout (10 s > waiter timeout 8 s): nothing may be lost
+    prog = sc.two_waits_timeout(8)
+    db = os.path.join(str(workdir), "c14_stale.db")
+    s = sv.ServerSystem(prog, db_path=db, idle_timeout=10.0)
+    try:
+        s.launch()
+        s.start_handler("h1")
+        s.drain()                              # idle period 1 starts at t=0 (timer at 10 s)
+        s.advance_to_ms(6000)
+        s.send("h1", "Resp", "x0", 0)          # a continues, b waits with timeout 8 s (fires at 14 s); idle period 2 from 6 s
+        s.drain()
+        flags = _engine_flags(s)
+        released_at, before = _watch_release(s, "h1", 15500)
+        s.run_to_end(90000)
+        row = s.handler_row("h1")
+        out.append({"e": "case", "via": "stale_idle_timer", "kind": "waiter", "idle_timeout_ms": 10000, "delay_ms": 8000,
+                    "released": released_at >= 0, "released_at": released_at,
+                    "timer_pending_at_release": bool(before["pending_waiter_timeout"] or flags["pending_waiter_timeout"]),
+                    "idle_announced_with_timer_pending": True,
+                    "retried": False, "timed_out": any(r["e"] == "wait_timeout" for r in s.trace),
+                    "status": row["status"], "result": row["result"], "run": 1, "seq": 500, "t": 0})
+    finally:
+        s.close()
     return out
 
 
@@ -172,6 +196,24 @@ def c15_cases(workdir, quick=True):
                                 "run": 1, "seq": n, "t": 0})
                 finally:
                     s.close()
+    # a later run in the SAME server process: earlier transient failures must not have used up its retry budget
+    db = os.path.join(str(workdir), "c15_second.db")
+    s = sv.ServerSystem(sc.pipeline(timeout=50), db_path=db, idle_timeout=1000.0, status_faults=2, backoff=(0.5, 3.0))
+    try:
+        s.launch()
+        s.start_handler("h1")
+        s.run_to_end(40000)
+        s.status_faults = 1
+        s.start_handler("h2", "s1")
+        s.run_to_end(s.now_ms() + 40000)
+        writes = [{"status": r["status"], "ok": bool(r["ok"])} for r in s.trace if r["e"] == "status_write"]
+        row = s.handler_row("h2")
+        out.append({"e": "case", "label": "second_run_after_earlier_faults", "expect": "completed", "faults": 1, "store": "sqlite",
+                    "status": row["status"], "has_result": row["has_result"], "result": row["result"],
+                    "has_error": row["error"] != "", "run_ended": s.live_loops("h2") == 0, "writes": writes[-3:],
+                    "run": 1, "seq": 900, "t": 0})
+    finally:
+        s.close()
     return out
 
 
@@ -193,15 +235,16 @@ def idle_cases(workdir, quick=True):
                "sends_failed": sorted(r["uid"] for r in s.trace if r["e"] == "send_ext" and not r["ok"]),
                "max_live_loops": max([r["n"] for r in s.trace if r["e"] == "loops"] + [0])}
         rec.update(extra)
+        rec.setdefault("idle_at_ms", 0)
         rec.setdefault("inputs_processed", [])
         rec.setdefault("expect_inputs", [])
         return rec
 
-    def mk(prog):
+    def mk(prog, idle=None):
         nonlocal n
         db = os.path.join(str(workdir), "idle_%d.db" % n)
         n += 1
-        s = sv.ServerSystem(prog, db_path=db, idle_timeout=IDLE)
+        s = sv.ServerSystem(prog, db_path=db, idle_timeout=IDLE if idle is None else idle)
         s.launch()
         s.start_handler("h1")
         s.drain()
@@ -222,6 +265,36 @@ def idle_cases(workdir, quick=True):
                                              "expect_result": "done", "expect_resp": ["x0"]}))
         finally:
             s.close()
+    # 1b. a non-integral idle_timeout
+    for (idle, gap_ms) in ((1.5, 1000), (1.5, 2500), (0.4, 1000)):
+        s = mk(sc.resumable_wait(), idle)
+        try:
+            released_at, before = _watch_release(s, "h1", gap_ms, step_ms=100)
+            released = not s.live_loops("h1") and s.handler_row("h1")["status"] == "running"
+            idle_row = s.handler_row("h1")["idle"]
+            s.send("h1", "Resp", "x0", 1)
+            s.run_to_end(s.now_ms() + 40000)
+            out.append(final(s, "wait_gap", {"gap_ms": gap_ms, "idle_timeout_ms": int(idle * 1000), "released": bool(released),
+                                             "released_at": released_at, "idle_row_before_send": bool(idle_row),
+                                             "busy_at_release": False, "expect_result": "done", "expect_resp": ["x0"]}))
+        finally:
+            s.close()
+    # 1c. the deferred-release timer of an EARLIER idle period must not release a run whose current idle period is younger
+    s = mk(sc.two_waits())
+    try:
+        s.advance_to_ms(6000)
+        s.send("h1", "Resp", "x0", 0)
+        s.drain()                                  # idle again from t = 6 s; the first period's timer fires at 10 s
+        released_at, before = _watch_release(s, "h1", 20000)
+        rel = not s.live_loops("h1")
+        idle_row = s.handler_row("h1")["idle"]
+        s.send("h1", "Resp", "x1", 1)
+        s.run_to_end(s.now_ms() + 40000)
+        out.append(final(s, "wait_gap", {"gap_ms": 14000, "idle_timeout_ms": int(IDLE * 1000), "released": bool(rel),
+                                         "released_at": released_at, "idle_at_ms": 6000, "idle_row_before_send": bool(idle_row),
+                                         "busy_at_release": False, "expect_result": "done", "expect_resp": ["x0", "x1"]}))
+    finally:
+        s.close()
     # 2. two idle periods, each released and reloaded
     s = mk(sc.two_waits())
     try:
